@@ -165,7 +165,7 @@ Definition FULL : list (formula -> formula) := INTUITIONISTIC ++ HT ++ CLASSIC.
 Lemma FULL_keeps_head : Forall keeps_head FULL.
 Proof.
   unfold FULL, INTUITIONISTIC, HT, CLASSIC. cbn [app].
-  repeat constructor;
+  repeat apply Forall_cons; try apply Forall_nil;
     [ apply kh_evaluate_comparisons | apply kh_apply_negation_definition_inverse
     | apply kh_apply_reverse_implication_definition | apply kh_apply_equivalence_definition_inverse
     | apply kh_remove_identities | apply kh_remove_annihilations | apply kh_remove_idempotences
@@ -473,7 +473,7 @@ Qed.
 Lemma FULL_keeps_K : Forall keeps_K FULL.
 Proof.
   unfold FULL, INTUITIONISTIC, HT, CLASSIC. cbn [app].
-  repeat constructor;
+  repeat apply Forall_cons; try apply Forall_nil;
     [ apply kK_evaluate_comparisons | apply kK_apply_negation_definition_inverse
     | apply kK_apply_reverse_implication_definition | apply kK_apply_equivalence_definition_inverse
     | apply kK_remove_identities | apply kK_remove_annihilations | apply kK_remove_idempotences
@@ -495,3 +495,167 @@ Lemma compose_keeps_K rs : Forall keeps_K rs -> keeps_K (compose rs).
 Proof. intros H x. apply (compose_inv (fun x => imp_free x = true)). exact H. Qed.
 Theorem imp_free_pass F : imp_free F = true -> imp_free (apply (compose FULL) F) = true.
 Proof. apply apply_keeps_K, compose_keeps_K, FULL_keeps_K. Qed.
+
+(* ------------------------------------------------------------------ part 3: constraints stay constraints *)
+(* the constraints of a completed theory, and everything the portfolio can turn them into:
+   [forall V ..] (B -> #false), [forall V ..] (#false <- B) with B implication-free, or an
+   implication-free formula (after `F -> #false => not F`) *)
+Inductive cs_shape : formula -> Prop :=
+| cs_K F : imp_free F = true -> cs_shape F
+| cs_imp B : imp_free B = true -> cs_shape (FBin CImp B ffalse)
+| cs_rimp B : imp_free B = true -> cs_shape (FBin CRimp ffalse B)
+| cs_forall vs F : cs_shape F -> cs_shape (FQ QForall vs F).
+
+Lemma cs_shape_no_head F : cs_shape F -> head_atom F = None.
+Proof. induction 1; cbn; auto. apply imp_free_no_head; auto. Qed.
+Lemma cs_shape_body q vs F : cs_shape (FQ q vs F) -> cs_shape F.
+Proof. intros H. inversion H; subst; auto. apply cs_K. assumption. Qed.
+Lemma cs_quantify F vs : cs_shape F -> cs_shape (quantify F QForall vs).
+Proof. destruct vs; cbn; auto. apply cs_forall. Qed.
+
+Lemma subst_fuel_ffalse n x t : subst_fuel n ffalse x t = Some ffalse.
+Proof. destruct n; reflexivity. Qed.
+Lemma subst_fuel_cs n : forall F x t G, subst_fuel n F x t = Some G -> cs_shape F -> cs_shape G.
+Proof.
+  induction n as [|n IH]; intros F x t G; [cbn; intros [= <-]; auto|].
+  intros E HF. inversion HF; subst.
+  - apply cs_K. eapply subst_fuel_imp_free; eauto.
+  - apply subst_bin_inv in E. destruct E as [l' [r' [El [Er ->]]]].
+    rewrite subst_fuel_ffalse in Er. injection Er as <-. apply cs_imp. eapply subst_fuel_imp_free; eauto.
+  - apply subst_bin_inv in E. destruct E as [l' [r' [El [Er ->]]]].
+    rewrite subst_fuel_ffalse in El. injection El as <-. apply cs_rimp. eapply subst_fuel_imp_free; eauto.
+  - apply subst_q_inv in E. destruct E as [[_ ->]|[_ [f' [vs' [f'' [Erb [Es ->]]]]]]]; [exact HF|].
+    apply cs_quantify. eapply IH; [exact Es|].
+    eapply (rb_inv cs_shape); [|exact Erb|assumption]. intros f v t0 f1. apply IH.
+Qed.
+
+(* identity on #false, closed on cs_shape at the root *)
+Definition keeps_cs (r : formula -> formula) : Prop :=
+  r ffalse = ffalse /\ forall x, cs_shape x -> cs_shape (r x).
+
+Ltac cs_cases H HK :=
+  inversion H as [F0 HF0|B0 HB0|B0 HB0|vs0 F0 HF0]; subst; [apply cs_K, HK; assumption| | |].
+
+Lemma kc_evaluate_comparisons : keeps_cs evaluate_comparisons.
+Proof. split; [reflexivity|]. intros x H. cs_cases H kK_evaluate_comparisons; cbn; auto. Qed.
+Lemma kc_apply_negation_definition_inverse : keeps_cs apply_negation_definition_inverse.
+Proof.
+  split; [reflexivity|]. intros x H. cs_cases H kK_apply_negation_definition_inverse; cbn; auto.
+  apply cs_K. exact HB0.
+Qed.
+Lemma kc_apply_reverse_implication_definition : keeps_cs apply_reverse_implication_definition.
+Proof.
+  split; [reflexivity|]. intros x H. cs_cases H kK_apply_reverse_implication_definition; cbn; auto.
+  apply cs_imp. exact HB0.
+Qed.
+Lemma kc_apply_equivalence_definition_inverse : keeps_cs apply_equivalence_definition_inverse.
+Proof. split; [reflexivity|]. intros x H. cs_cases H kK_apply_equivalence_definition_inverse; cbn; auto. Qed.
+Lemma kc_remove_identities : keeps_cs remove_identities.
+Proof.
+  split; [reflexivity|]. intros x H. cs_cases H kK_remove_identities; cbn; auto.
+  destruct B0 as [[| | |]| | |]; auto. apply cs_K. reflexivity.
+Qed.
+Lemma kc_remove_annihilations : keeps_cs remove_annihilations.
+Proof.
+  split; [reflexivity|]. intros x H. cs_cases H kK_remove_annihilations; try (cbn; auto; fail).
+  destruct B0 as [[| | |]| | |]; cbn; auto; try (apply cs_K; reflexivity);
+    match goal with |- context [formula_eqb ?a ?b] => destruct (formula_eqb a b) end; auto; apply cs_K; reflexivity.
+Qed.
+Lemma kc_remove_idempotences : keeps_cs remove_idempotences.
+Proof. split; [reflexivity|]. intros x H. cs_cases H kK_remove_idempotences; cbn; auto. Qed.
+Lemma kc_remove_orphaned_variables : keeps_cs remove_orphaned_variables.
+Proof.
+  split; [reflexivity|]. intros x H. cs_cases H kK_remove_orphaned_variables; cbn; auto.
+  apply cs_forall. assumption.
+Qed.
+Lemma kc_remove_empty_quantifications : keeps_cs remove_empty_quantifications.
+Proof.
+  split; [reflexivity|]. intros x H. cs_cases H kK_remove_empty_quantifications; cbn; auto.
+  destruct vs0; auto.
+Qed.
+Lemma kc_join_nested_quantifiers : keeps_cs join_nested_quantifiers.
+Proof.
+  split; [reflexivity|]. intros x H. cs_cases H kK_join_nested_quantifiers; try (cbn; auto; fail).
+  destruct F0 as [a|g'|c l r|q' vs' g']; try exact H. destruct q'; [|exact H].
+  cbn. apply cs_quantify. eapply cs_shape_body; eauto.
+Qed.
+Lemma kc_remove_double_negation : keeps_cs remove_double_negation.
+Proof. split; [reflexivity|]. intros x H. cs_cases H kK_remove_double_negation; cbn; auto. Qed.
+Lemma kc_substitute_defined_variables : keeps_cs substitute_defined_variables.
+Proof. split; [reflexivity|]. intros x H. cs_cases H kK_substitute_defined_variables; cbn; auto. Qed.
+(* forall Z (exists I (I = Z and G) -> #false) IS a redex of the forall-case: the block changes and
+   Z is substituted in the body, which stays `_ -> #false` *)
+Lemma kc_restrict_quantifier_domain : keeps_cs restrict_quantifier_domain.
+Proof.
+  split; [reflexivity|]. intros x H. cs_cases H kK_restrict_quantifier_domain; try (cbn; auto; fail).
+  unfold restrict_quantifier_domain, total.
+  destruct (restrict_quantifier_domain_opt (FQ QForall vs0 F0)) as [G|] eqn:E; [|exact H].
+  apply rqd_hit_form in E. destruct E as [->|[q [vars [f [vars' [v [t [f' [EF [Sub ->]]]]]]]]]]; [exact H|].
+  injection EF as <- <- <-. apply cs_forall. eapply subst_fuel_cs; eauto.
+Qed.
+Lemma kc_extend_quantifier_scope : keeps_cs extend_quantifier_scope.
+Proof.
+  split; [reflexivity|]. intros x H. cs_cases H kK_extend_quantifier_scope; cbn; auto.
+  - destruct B0; auto.
+  - destruct B0; auto.
+Qed.
+Lemma kc_simplify_transitive_equality : keeps_cs simplify_transitive_equality.
+Proof. split; [reflexivity|]. intros x H. cs_cases H kK_simplify_transitive_equality; cbn; auto. Qed.
+
+Lemma FULL_keeps_cs : Forall keeps_cs FULL.
+Proof.
+  unfold FULL, INTUITIONISTIC, HT, CLASSIC. cbn [app].
+  repeat apply Forall_cons; try apply Forall_nil;
+    [ apply kc_evaluate_comparisons | apply kc_apply_negation_definition_inverse
+    | apply kc_apply_reverse_implication_definition | apply kc_apply_equivalence_definition_inverse
+    | apply kc_remove_identities | apply kc_remove_annihilations | apply kc_remove_idempotences
+    | apply kc_remove_orphaned_variables | apply kc_remove_empty_quantifications
+    | apply kc_join_nested_quantifiers | apply kc_remove_double_negation
+    | apply kc_substitute_defined_variables | apply kc_restrict_quantifier_domain
+    | apply kc_extend_quantifier_scope | apply kc_simplify_transitive_equality ].
+Qed.
+Lemma compose_keeps_cs rs : Forall keeps_cs rs -> keeps_cs (compose rs).
+Proof.
+  intros H. split.
+  - apply compose_fix. eapply Forall_impl; [|exact H]. intros r [Hr _]. exact Hr.
+  - apply (compose_inv cs_shape). eapply Forall_impl; [|exact H]. intros r [_ Hr]. exact Hr.
+Qed.
+
+Lemma apply_keeps_cs s : keeps_K s -> keeps_cs s -> forall F, cs_shape F -> cs_shape (apply s F).
+Proof.
+  intros HK [Hff Hroot] F H. induction H as [F HF|B HB|B HB|vs F HF IH].
+  - apply cs_K. apply apply_keeps_K; assumption.
+  - cbn [apply ffalse]. apply Hroot. fold ffalse. rewrite Hff. apply cs_imp. apply apply_keeps_K; assumption.
+  - cbn [apply ffalse]. apply Hroot. fold ffalse. rewrite Hff. apply cs_rimp. apply apply_keeps_K; assumption.
+  - cbn [apply]. apply Hroot. apply cs_forall. exact IH.
+Qed.
+
+Theorem cs_shape_pass F : cs_shape F -> cs_shape (apply (compose FULL) F).
+Proof.
+  apply apply_keeps_cs; [apply compose_keeps_K, FULL_keeps_K|apply compose_keeps_cs, FULL_keeps_cs].
+Qed.
+
+(* a constraint is never turned into something head_predicate recognises *)
+Theorem constraint_stable F fuel G :
+  cs_shape F -> apply_fixpoint fuel (compose FULL) F = Some G -> head_predicate G = None.
+Proof.
+  intros H HG. rewrite head_predicate_atom.
+  rewrite (cs_shape_no_head G); [reflexivity|].
+  revert HG. apply (apply_fixpoint_inv cs_shape); [apply cs_shape_pass|exact H].
+Qed.
+
+(* both directions: the classification of a completed theory's formula is invariant *)
+Definition classified (F : formula) : Prop := (exists a, head_atom F = Some a) \/ cs_shape F.
+
+Theorem head_predicate_invariant F fuel G :
+  classified F -> apply_fixpoint fuel (compose FULL) F = Some G ->
+  head_predicate G = head_predicate F /\ classified G.
+Proof.
+  intros [[a Ha]|Hc] HG.
+  - pose proof (head_atom_stable F a fuel G Ha HG) as Ha'. split; [|left; eauto].
+    rewrite !head_predicate_atom, Ha, Ha'. reflexivity.
+  - assert (HcG : cs_shape G).
+    { revert HG. apply (apply_fixpoint_inv cs_shape); [apply cs_shape_pass|exact Hc]. }
+    split; [|right; exact HcG].
+    rewrite !head_predicate_atom, (cs_shape_no_head F Hc), (cs_shape_no_head G HcG). reflexivity.
+Qed.
